@@ -188,6 +188,8 @@ fn gen_frame(sk: &mut Tape, ct: &mut Tape, barrel: Barrel, group: usize, ob_ids:
     }
     let bc = sk.u8();
     let mut lanes: Vec<LaneSpec> = vec![];
+    // which lane announces the fatal state (any lane of the frame, the last one of an inner-barrel group included)
+    let fatal_idx = if ids.is_empty() { 0 } else { sk.below(ids.len()) };
     for (li, id) in ids.iter().enumerate() {
         let num = lane_of_id(*id);
         let mut chip_ids: Vec<u8> = match barrel {
@@ -262,7 +264,7 @@ fn gen_frame(sk: &mut Tape, ct: &mut Tape, barrel: Barrel, group: usize, ob_ids:
                 }
             })
             .collect();
-        let fatal_ape = if class == "fatal" && allow_fatal && li == 0 && ids.len() > 1 { Some(*sk.pick(&alpide::APE_FATAL)) } else { None };
+        let fatal_ape = if class == "fatal" && allow_fatal && li == fatal_idx && ids.len() > 1 { Some(*sk.pick(&alpide::APE_FATAL)) } else { None };
         lanes.push(LaneSpec { id: *id, pad_before: if ct.chance(1, 6) { ct.below(5) as u8 } else { 0 }, chips, fatal_ape });
     }
     FramePlan { lanes, nodata_before: if sk.chance(1, 5) { 1 + sk.below(2) } else { 0 }, splits: sk.weighted(&[6, 2, 1]), class: class_eff }
